@@ -7,8 +7,8 @@
     hypotheses for the plist parts) — for ALL fonts, write options and conforming-writer
     choices.  [toy_ok] shows the laws are satisfiable. *)
 Require Import Norad.Model.GlifSpec Norad.Model.GlifEncode Norad.Proofs.GlifEncodeP Norad.Proofs.GlifRoundtripP Norad.Proofs.GlifFullP.
-Require Import Norad.Model.Base Norad.Model.FontRT Norad.Model.FontToy Norad.Model.FontReal
-               Norad.Proofs.FontRTP Norad.Proofs.FontToyP Norad.Proofs.FontRealP.
+Require Import Norad.Model.Base Norad.Model.FontRT Norad.Model.FontToy Norad.Model.FontReal Norad.Model.FontRealFiles
+               Norad.Proofs.FontRTP Norad.Proofs.FontToyP Norad.Proofs.FontRealP Norad.Proofs.FontRealFilesP.
 Open Scope N_scope.
 
 (** The file, directory and key names norad uses are the names of the specification. *)
@@ -111,3 +111,33 @@ Theorem C05_spec_read_spec_write_real : forall pf ff ff3 fi fh (K : codecs),
   exists t, spec_write (real_sig pf ff ff3 fi fh K) c o f = Some t /\
             exists f', spec_read (real_sig pf ff ff3 fi fh K) t = Some f' /\ font_equiv (real_sig pf ff ff3 fi fh K) f f'.
 Proof. exact spec_reader_real. Qed.
+
+(** ---------- every file through the plist tree ([all_files], Model/FontRealFiles.v) ----------
+    No file codec is abstract any more: what norad writes is what the specification's writer with
+    norad's choices writes, and norad reads (and so does the specification's reader) every
+    rendering the specification allows, file by file down to the XML tree of each plist.
+    Remaining hypotheses: [L1_glif] (std text facts), f64::from_bits(v).to_bits() == v, and the
+    domain [font_valid] (Props/C01.v, C01_roundtrip_real_all_files, spells it out). *)
+Theorem C05_norad_writes_spec_real_all_files : forall pf ff ff3 fi fh to_bits of_bits lw,
+  L1_glif pf ff ff3 fi fh -> (forall v, to_bits (of_bits v) = v) ->
+  forall o (f : font (real_sig pf ff ff3 fi fh (all_files pf ff ff3 fi to_bits of_bits lw))),
+  font_valid (real_sig pf ff ff3 fi fh (all_files pf ff ff3 fi to_bits of_bits lw)) f ->
+  exists t, save (real_sig pf ff ff3 fi fh (all_files pf ff ff3 fi to_bits of_bits lw)) o f = Ok t /\
+            spec_write (real_sig pf ff ff3 fi fh (all_files pf ff ff3 fi to_bits of_bits lw)) norad_choices o f = Some t.
+Proof. exact writes_spec_all_files. Qed.
+Theorem C05_norad_reads_spec_real_all_files : forall pf ff ff3 fi fh to_bits of_bits lw,
+  L1_glif pf ff ff3 fi fh -> (forall v, to_bits (of_bits v) = v) ->
+  forall c o (f : font (real_sig pf ff ff3 fi fh (all_files pf ff ff3 fi to_bits of_bits lw))),
+  font_valid (real_sig pf ff ff3 fi fh (all_files pf ff ff3 fi to_bits of_bits lw)) f ->
+  exists t, spec_write (real_sig pf ff ff3 fi fh (all_files pf ff ff3 fi to_bits of_bits lw)) c o f = Some t /\
+            exists f', load (real_sig pf ff ff3 fi fh (all_files pf ff ff3 fi to_bits of_bits lw)) t = Ok f' /\
+                       font_equiv (real_sig pf ff ff3 fi fh (all_files pf ff ff3 fi to_bits of_bits lw)) f f'.
+Proof. exact reads_spec_all_files. Qed.
+Theorem C05_spec_read_spec_write_real_all_files : forall pf ff ff3 fi fh to_bits of_bits lw,
+  L1_glif pf ff ff3 fi fh -> (forall v, to_bits (of_bits v) = v) ->
+  forall c o (f : font (real_sig pf ff ff3 fi fh (all_files pf ff ff3 fi to_bits of_bits lw))),
+  font_valid (real_sig pf ff ff3 fi fh (all_files pf ff ff3 fi to_bits of_bits lw)) f ->
+  exists t, spec_write (real_sig pf ff ff3 fi fh (all_files pf ff ff3 fi to_bits of_bits lw)) c o f = Some t /\
+            exists f', spec_read (real_sig pf ff ff3 fi fh (all_files pf ff ff3 fi to_bits of_bits lw)) t = Some f' /\
+                       font_equiv (real_sig pf ff ff3 fi fh (all_files pf ff ff3 fi to_bits of_bits lw)) f f'.
+Proof. exact spec_reader_all_files. Qed.
